@@ -379,6 +379,10 @@ def gen_build(g, k):
     for i in (1, 2, 4, 16):                               # single-valued kinds: the same call twice is one tag
         a = g.call(i, ok=True)
         c.append("build %s" % lst([a, a]))
+    # structures larger than 64 KiB and 1 MiB (one large custom / network tag; many modules)
+    c.append("build %s" % lst([lst([22, 0x1337, hx(bytes(range(256)) * 280)])]))
+    c.append("build %s" % lst([lst([16, hx(b"\x5a" * 70000)]), g.call(1, ok=True)]))
+    c.append("build %s" % lst([lst([3, 4096 + i, 8192 + i, hx(b"module-%d" % i)]) for i in range(200)]))
     # boundary arguments: all-zero fields, empty variable parts (a setter that drops a tag "without information")
     zero = {1: [hx(b"")], 2: [hx(b"")], 4: [0, 0], 5: [0, 0, 0], 6: [lst([])], 11: [0], 12: [0], 13: [0, 0, hx(b"")], 16: [hx(b"")],
             19: [0], 20: [0], 21: [0]}
